@@ -175,4 +175,44 @@ theorem pointwise_one (R : Str → Str → Prop) (hrefl : ∀ l, R l l) (A B : L
     | cons b bs ih => exact Pointwise.cons (hrefl b) ih
   | cons a as ih => exact Pointwise.cons (hrefl a) ih
 
+theorem splitNL_noNL_mem (s : Str) : ∀ l ∈ splitNL s, ∀ ch ∈ l, ch ≠ '\n' := by
+  induction s with
+  | nil => intro l hl; simp [splitNL] at hl; subst hl; simp
+  | cons c r ih =>
+    intro l hl
+    by_cases hc : c = '\n'
+    · subst hc
+      simp only [splitNL, if_true, List.mem_cons] at hl
+      rcases hl with rfl | h
+      · simp
+      · exact ih l h
+    · simp only [splitNL, hc, if_false] at hl
+      cases hs : splitNL r with
+      | nil => exact absurd hs (splitNL_ne_nil r)
+      | cons a as =>
+        rw [hs] at hl ih
+        simp only [List.mem_cons] at hl
+        rcases hl with rfl | h
+        · intro ch hch
+          rcases List.mem_cons.1 hch with h1 | h1
+          · rw [h1]; exact hc
+          · exact ih a (by simp) ch h1
+        · exact ih l (by simp [h])
+
+theorem splitNL_joinNL : ∀ (ls : List Str), ls ≠ [] → (∀ l ∈ ls, ∀ ch ∈ l, ch ≠ '\n') → splitNL (joinNL ls) = ls
+  | [], h, _ => absurd rfl h
+  | [l], _, h => by simpa [joinNL] using splitNL_noNL l (h l (by simp))
+  | l :: m :: ls, _, h => by
+    have ih := splitNL_joinNL (m :: ls) (by simp) (fun x hx => h x (by simp [hx]))
+    simp only [joinNL]
+    rw [splitNL_append, splitNL_noNL l (h l (by simp)), ih]
+    rfl
+
+theorem scaleLine_noNL (k : Nat) (l : Str) (h : ∀ ch ∈ l, ch ≠ '\n') : ∀ ch ∈ scaleLine k l, ch ≠ '\n' := by
+  intro ch hch
+  unfold scaleLine at hch
+  rcases List.mem_append.1 hch with h1 | h1
+  · rw [(List.mem_replicate.1 h1).2]; decide
+  · exact h ch (List.mem_of_mem_drop h1)
+
 end NemoVerif.NumberedLines
